@@ -506,7 +506,7 @@ META = {
     "explanation": "Decides, on the MIR of the chunk-reader generator and the header verifier: verify-before-yield per iteration; the signature "
                    "chain (seed, update, use); that the seed is the verified header signature and the stream is built only after verification; "
                    "that a clean end of the decoded stream is control-dependent on the zero-length final chunk and on the declared length; and "
-                   "the Content-Length rewrite. Parser behaviour under frame splits (C09) and the HMAC text are not decided.",
+                   "the Content-Length rewrite. Parser behaviour under frame splits (C09) and the HMAC text are not decided. Also: the declared-length check is an exact equality over non-clamping arithmetic; the chunk checker is recognised by role.",
     "not_decided": ["parser behaviour under splits (C09)", "hex/size parsing values", "the HMAC text"],
     "assumptions": ["rustc nightly MIR construction", "transform_stream::Yielder::yield_ok is the only way data leaves the generator"],
 }
